@@ -145,3 +145,142 @@ def _trans(it, args, kwargs):
 
 
 B.SPEC_FUNCS['TRANS'] = _trans
+
+
+# =====================================================================================================
+# rows and columns (C06): what the intermediate generator later classifies table / row / column by
+# =====================================================================================================
+CONTRACTS += [
+    Contract(
+        id='symtable.genSequence', file=FILE, func='SymtableCodeGen.genSequence', serves=['C06'],
+        params={'self': SELF, 'data': Lst(SeqOf()), 'classmode': Any},
+        requires=['forall(data[0], lambda c: is_tuple(c) and len(c) == 2 and is_str(c[0]))'],
+        returns=Any, assigns=['self._cols'],
+        ensures={
+            'every_member_of_the_sequence_is_a_column': 'not raised and forall(data[0], lambda c: c[0] in self._cols)',
+            'columns_only_grow': 'forall(old(self._cols), lambda k, v: k in self._cols)',
+            'nothing_else_becomes_a_column': 'forall(self._cols, lambda k, v: k in old(self._cols) or '
+                                             'exists(data[0], lambda c: c[0] == k))',
+        }),
+    Contract(
+        id='symtable.genConceptualTable', file=FILE, func='SymtableCodeGen.genConceptualTable', serves=['C06'],
+        params={'self': SELF, 'data': Lst(Tup(Tup(Str, Any), Any)), 'classmode': Any},
+        inline=['SymtableCodeGen.transOpers'],
+        returns=Any, assigns=['self._rows'],
+        ensures={
+            'row_type_recorded_under_its_translated_name':
+                'not raised and implies(len(data[0][0][0]) > 0, TRANS(data[0][0][0]) in self._rows)',
+            'rows_only_grow': 'forall(old(self._rows), lambda r: r in self._rows)',
+            'nothing_else_becomes_a_row': 'forall(self._rows, lambda r: r in old(self._rows) or r == TRANS(data[0][0][0]))',
+            'a_table': 'same(result, (("MibTable", ""), ""))',
+        }),
+    Contract(
+        id='symtable.genRow', file=FILE, func='SymtableCodeGen.genRow', serves=['C06'],
+        params={'self': SELF, 'data': Lst(Str), 'classmode': Any},
+        inline=['SymtableCodeGen.transOpers', 'SymtableCodeGen.genSimpleSyntax'],
+        returns=Any,
+        ensures={
+            'a_known_row_type_is_a_row': 'implies(TRANS(data[0]) in self._rows, not raised and same(result, (("MibTableRow", ""), "")))',
+            'anything_else_is_an_ordinary_type': 'implies(TRANS(data[0]) not in self._rows and not raised, '
+                                                 'is_tuple(result) and len(result) == 2 and is_tuple(result[0]) and result[1] == "")',
+            'observer': 'same(self._rows, old(self._rows))',
+        }),
+]
+
+
+# =====================================================================================================
+# genCode: per-module driver of the symbol-table generator
+# =====================================================================================================
+ST_PER_MODULE = ['self._out', 'self._symsOrder', 'self._postponedSyms', 'self._parentOids', 'self._rows', 'self._cols',
+                 'self._moduleRevision', 'self._exports']
+from pyvc.apply import havoc_location as _havoc_location
+
+
+def _st_handler_model(it, args, kwargs):
+    """a clause handler as genCode sees it (handlers and regSym have their own contracts)"""
+    from pyvc.interp import PyRaise
+    ctx = it.ctx
+    g = ctx.ghost
+    selfv = args[0]
+    exp = g['st_expected']
+    ctx.oblige('symtable.genCode.dispatch.module_name_is_this_modules',
+               lift(selfv.fields['moduleName'].items[0]) == lift(exp['name']), None, 'call-pre',
+               info={'clause': 'self.moduleName[0] == ast[0] when a handler runs'})
+    ctx.oblige('symtable.genCode.dispatch.class_mode_only_for_type_declarations',
+               lift(args[2]) == lift(exp['classmode'](it)) if len(args) > 2 else False, None, 'call-pre',
+               info={'clause': 'classmode == (clause tag == "typeDeclaration")'})
+    if ctx.choose(2, 'handler-outcome') == 1:
+        e = pv.VObj('PySmiError')
+        e.fields['args'] = (it.fresh_str('msg'),)
+        e.fields['msg'] = e.fields['args'][0]
+        raise PyRaise(e, None)
+    for p in ST_PER_MODULE:
+        _havoc_location(it, g['st_env'], p)
+    return None
+
+
+def _st_gencode_setup(it, env):
+    from pyvc.interp import UNBOUND
+    ctx = it.ctx
+    selfv = env.lookup('self')
+    ht = pv.VObj('HandlerTable')
+    last = {}
+
+    def getitem(i, a, k):
+        last['tag'] = a[0]
+        return pv.VBuiltin('clause-handler', _st_handler_model)
+    ht.attr_hook = lambda i_, o, attr: pv.VBuiltin('handlersTable.__getitem__', getitem) if attr == '__getitem__' else UNBOUND
+    selfv.fields['handlersTable'] = ht
+    env.set('kwargs', pv.VDict())
+    ctx.ghost['st_expected'] = {
+        'name': env.lookup('ast')[0],
+        'classmode': lambda i: pv.veq(last['tag'], 'typeDeclaration')}
+    ctx.ghost['st_env'] = env
+    ctx.ghost['st_entry_out'] = selfv.fields['_out']
+
+
+B.SPEC_FUNCS['MEMBERS'] = lambda it, args, kwargs: VSeqIter(pv.members_facts(
+    it.ctx, args[0].to_arr() if hasattr(args[0], 'to_arr') else args[0].arr, isinstance(args[0], pv.VSet)))
+B.SPEC_FUNCS['ST_ENTRY_OUT'] = lambda it, args, kwargs: args[0] is it.ctx.ghost['st_entry_out']
+
+ST_RESET = ['forall(lambda s_k: s_k not in self._out)', 'len(self._symsOrder) == 0',
+            'forall(lambda s_k: s_k not in self._postponedSyms)', 'forall(lambda s_k: s_k not in self._parentOids)',
+            'forall(lambda s_k: s_k not in self._rows)', 'forall(lambda s_k: s_k not in self._cols)',
+            'self._moduleRevision is None', 'not ST_ENTRY_OUT(self._out)']
+
+CONTRACTS += [
+    Contract(id='symtable.genImports', file=FILE, func='SymtableCodeGen.genImports', serves=['C03'], trusted=True,
+             params={'self': SELF, 'imports': Any}, returns=Tup(MapOf(), TupOf(Str)),
+             assigns=['self._importMap'],
+             requires=['forall(lambda s_k: s_k not in self._importMap)'],
+             ensures={'module_names': 'implies(not raised, is_dict(result[0]))'},
+             raises={'PySmiSemanticError': True},
+             notes=['assumed summary: genImports fills the import map and returns the imported module names (its own '
+                    'contract serves C16)']),
+    Contract(id='symtable.prepData', file=FILE, func='SymtableCodeGen.prepData', serves=['C03'], trusted=True,
+             params={'self': SELF, 'pdata': Any, 'classmode': Any}, returns=Any, pure=True,
+             ensures={'a_list': 'implies(not raised, is_list(result))'}, raises={'PySmiError': True},
+             notes=['assumed summary: prepData maps the clause arguments through the sub-handlers']),
+    Contract(id='symtable.genCode', file=FILE, func='SymtableCodeGen.genCode', serves=['C03', 'C06', 'C12', 'C01'],
+             params={'self': SELF, 'ast': Tup(Str, Any, Any, Opt(SeqOf())), 'symbolTable': MapOf(), 'kwargs': NoneT},
+             setup=_st_gencode_setup,
+             requires=['implies(ast[3] is not None, forall(ast[3], lambda d: not truthy(d) or (is_tuple(d) and len(d) >= 1 and is_str(d[0]))))'],
+             loops={
+                 1: {'assigns': ST_PER_MODULE,
+                     'invariant': ['implies(_i == 0, %s)' % r for r in ST_RESET] + ['self.moduleName[0] == ast[0]']},
+                 2: {'invariant': ['forall(_done, lambda s: s in self._out or s in self._importMap)']},
+             },
+             ensures={
+                 'a_postponed_symbol_is_an_error': 'implies(truthy(self._postponedSyms), raised)',
+                 'an_unknown_oid_parent_is_an_error':
+                     'implies(not raised, forall(self._parentOids, lambda s: s in old_out_or_import(s)))'
+                     if False else 'implies(not raised, forall(self._parentOids, lambda s: s in self._out or s in self._importMap))',
+                 'declaration_order_is_published': 'implies(not raised, same(seq(result[1]["_symtable_order"]), seq(self._symsOrder)))',
+                 # list(set) / list(dict): the members in iteration order (MEMBERS: exactly the members, order unspecified)
+                 'rows_are_published': 'implies(not raised, same(seq(result[1]["_symtable_rows"]), MEMBERS(self._rows)))',
+                 'columns_are_published': 'implies(not raised, same(seq(result[1]["_symtable_cols"]), MEMBERS(self._cols)))',
+                 'table_is_this_modules_own_object': 'implies(not raised, result[1] is self._out and not ST_ENTRY_OUT(result[1]))',
+                 'summary_is_this_modules': 'implies(not raised, result[0].name == ast[0] and same(result[0].revision, self._moduleRevision))',
+             },
+             raises={'PySmiSemanticError': True, 'PySmiError': True}),
+]
